@@ -6,6 +6,7 @@ import (
 	"fmt"
 	"go/types"
 	"math/big"
+	"regexp"
 
 	"golang.org/x/tools/go/ssa"
 	"sort"
@@ -224,19 +225,35 @@ func typeKey(t types.Type) string {
 		return typeKey(types.Unalias(tt))
 	}
 	if _, ok := t.Underlying().(*types.Struct); ok {
-		return "struct<" + types.TypeString(t, qualShort) + ">"
+		return "struct<" + canonType(t) + ">"
 	}
-	return "mem<" + types.TypeString(t, qualShort) + ">"
+	return "mem<" + canonType(t) + ">"
 }
 
 func qualShort(p *types.Package) string { return pkgShort(p) }
 
+var canonRe = regexp.MustCompile(`\b(byte|rune|any)\b`)
+
+// canonType prints a type with the builtin aliases resolved, so that identical Go types share heap keys.
+func canonType(t types.Type) string {
+	s := types.TypeString(t, qualShort)
+	return canonRe.ReplaceAllStringFunc(s, func(m string) string {
+		switch m {
+		case "byte":
+			return "uint8"
+		case "rune":
+			return "int32"
+		}
+		return "interface{}"
+	})
+}
+
 func elemKey(t types.Type) string {
-	return "elem<" + types.TypeString(t, qualShort) + ">"
+	return "elem<" + canonType(t) + ">"
 }
 
 func mapKey(m *types.Map) string {
-	return "map<" + types.TypeString(m.Key(), qualShort) + "," + types.TypeString(m.Elem(), qualShort) + ">"
+	return "map<" + canonType(m.Key()) + "," + canonType(m.Elem()) + ">"
 }
 
 // ---------- heap key registry ----------
@@ -534,3 +551,11 @@ func (vc *VC) StrEq(a, b *Term) *Term {
 	return eq
 }
 
+
+// chanKey names the ghost counters of channels by element type (direction-insensitive).
+func chanKey(t types.Type) string {
+	if c, ok := t.Underlying().(*types.Chan); ok {
+		return canonType(c.Elem())
+	}
+	return canonType(t)
+}
